@@ -18,7 +18,8 @@ Reach(G, frontier, seen) ==
 OnCycle(G, S) == {x \in S : x \in Reach(G, {x}, {})}
 
 VARIABLE l
-Init == l = 1
+\* programs are independent: a rejected one is remembered (TLC register 1) and validation continues with the next
+Init == l = 1 /\ TLCSet(1, <<>>)
 E == Rec[l]
 
 ContainOk(e) ==
@@ -45,15 +46,18 @@ InheritOk(e) ==
   LET S == 1..e.n  G == ToSet(e.edges)  loop == OnCycle(G, S) IN
   e.accepted <=> (loop = {})
 
-Step == /\ l <= Len(Rec)
-        /\ CASE E.ev = "contain" -> ContainOk(E)
+EventOk == CASE E.ev = "contain" -> ContainOk(E)
              [] E.ev = "alias"   -> AliasOk(E)
              [] E.ev = "inherit" -> InheritOk(E)
              [] OTHER -> FALSE
+Step == /\ l <= Len(Rec)
+        /\ IF EventOk THEN TRUE ELSE TLCSet(1, Append(TLCGet(1), l))
         /\ l' = l + 1
 Spec == Init /\ [][Step]_l
 
-Accepted == LET d == TLCGet("stats").diameter IN
-            IF d - 1 = Len(Rec) THEN PrintT(<<"ACCEPTED", Len(Rec)>>)
-            ELSE Print(<<"REJECTED", d, ToJson([event |-> Rec[d]])>>, FALSE)
+Accepted == LET d == TLCGet("stats").diameter  b == TLCGet(1) IN
+            IF d - 1 = Len(Rec) /\ b = <<>> THEN PrintT(<<"ACCEPTED", Len(Rec)>>)
+            ELSE /\ PrintT(<<"REJECTED-COUNT", Len(b), "of", Len(Rec), "consumed", d - 1>>)
+                 /\ \A i \in 1..(IF Len(b) < 12 THEN Len(b) ELSE 12) : PrintT(<<"REJECTED", b[i], ToJson([event |-> Rec[b[i]]])>>)
+                 /\ FALSE
 ====================================================================================================
